@@ -68,6 +68,7 @@ int  rq_build (rq_request *q, vf_rng *r);       /* allocate guarded storage, fil
 void rq_run (rq_request *q);
 uint64_t rq_digest (const rq_request *q);
 void rq_free (rq_request *q);
+void rq_make_premultiplied (rq_image *im);
 void rq_describe (const rq_request *q, char *buf, size_t n);
 void rq_label (const rq_request *q, char *buf, size_t n);   /* short class label */
 uint64_t rq_cell (const rq_request *q);
